@@ -5,7 +5,9 @@ lines, comments) of the real ShExC output vs the model's.  Oracle: every figure
 recomputed from the abstract triples (pipespec.check_figures), independent of
 model and code.
 """
-from vp import pipeprops, pipespec, pipe
+from vp import pipeprops, pipespec, pipe, pipemap
+
+pipemap.install()      # shape-map runs (cfg["smap"]) go through Model.RunMap / Shaper(shape_map_raw=...)
 
 
 class Spec(pipeprops.PropSpec):
@@ -22,7 +24,7 @@ class Spec(pipeprops.PropSpec):
                    "the figure of '+' or of some exact cardinality k>1 of the same (property, kind) (documented behaviour)"]
 
     def gen_cases(self, tier, rnd):
-        return pipeprops.gen_basic(tier, rnd, 2500, 40000)
+        return pipeprops.gen_basic(tier, rnd, 2500, 40000) + pipemap.stream(tier, rnd, 1000, 10000, only_iri=True)
 
     def oracle(self, case, impl):
         ts, cfg = case["runs"][0]
